@@ -21,13 +21,40 @@ type exampleBuilder struct {
 	// Infinity recursion can't happen here 'cause we check it before building
 	// example, but optional recursion can be there.
 	processedTypes map[string]int
+
+	// shown counts, for each optional property and each array item of the schema,
+	// how many times the example contains it. processedTypes limits how often
+	// a type occurs on one path, not the number of paths: n types which refer to
+	// each other have (2n)!/2^n of them.
+	shown map[internalSchema.Node]int
 }
+
+// exampleRepeatLimit is how many times one example contains the same optional
+// property or the same array item of the schema. Far more than a readable
+// example needs; it bounds the number of them in an example by a multiple of
+// their number in the schema.
+const exampleRepeatLimit = 100
 
 func newExampleBuilder(types map[string]internalSchema.Type) *exampleBuilder {
 	return &exampleBuilder{
 		types:          types,
 		processedTypes: map[string]int{},
+		shown:          map[internalSchema.Node]int{},
 	}
+}
+
+// canShow reports whether the example may contain the given optional property
+// or array item once more. These are the places where a valid document may
+// stop, so the example stays valid. A literal refers to nothing: always shown.
+func (b *exampleBuilder) canShow(node internalSchema.Node) bool {
+	if _, ok := node.(*internalSchema.LiteralNode); ok {
+		return true
+	}
+	if b.shown[node] >= exampleRepeatLimit {
+		return false
+	}
+	b.shown[node]++
+	return true
 }
 
 func (b *exampleBuilder) Build(node internalSchema.Node) ([]byte, error) {
@@ -57,9 +84,22 @@ func (b *exampleBuilder) buildExampleForObjectNode(node *internalSchema.ObjectNo
 	buf := exampleBufferPool.Get()
 	defer exampleBufferPool.Put(buf)
 
+	// The properties a document must have: the other ones are optional, by the
+	// "optional" rule or by the option of the schema.
+	required := map[string]struct{}{}
+	if c, ok := node.Constraint(constraint.RequiredKeysConstraintType).(*constraint.RequiredKeys); ok {
+		for _, k := range c.Keys() {
+			required[k] = struct{}{}
+		}
+	}
+
 	buf.WriteRune('{')
 	emitted := false
 	for i, childNode := range node.Children() {
+		if _, ok := required[node.Key(i).Key]; !ok && !b.canShow(childNode) {
+			continue
+		}
+
 		ex, err := b.Build(childNode)
 		if err != nil {
 			return nil, err
@@ -131,9 +171,16 @@ func (b *exampleBuilder) buildExampleForArrayNode(node *internalSchema.ArrayNode
 	buf := exampleBufferPool.Get()
 	defer exampleBufferPool.Put(buf)
 
+	// An array which has to have items is not a place to stop.
+	mayStop := node.Constraint(constraint.MinItemsConstraintType) == nil
+
 	buf.WriteRune('[')
 	emitted := false
 	for _, childNode := range node.Children() {
+		if mayStop && !b.canShow(childNode) {
+			break
+		}
+
 		ex, err := b.Build(childNode)
 		if err != nil {
 			return nil, err
